@@ -542,7 +542,7 @@ func genSessionCase(r *rand.Rand) sessionCase {
 			}
 		}
 		req, used := genRequest(r, g, c.cfg.ops, authMode)
-		dmg := r.Intn(14)
+		dmg := r.Intn(15)
 		switch dmg {
 		case 0:
 			req.Header.BatchCount++
@@ -575,9 +575,25 @@ func genSessionCase(r *rand.Rand) sessionCase {
 			if rb != nil {
 				b = rb
 			}
+		case 6: // one field removed, every enclosing length adjusted: consistent lengths, but a required field may be missing
+			var all []*item
+			walkItems(b, 0, 0, &all)
+			var cand []*item
+			for _, it := range all {
+				if it.depth >= 2 {
+					cand = append(cand, it)
+				}
+			}
+			if len(cand) > 0 {
+				it := cand[len(cand)-1-r.Intn(min(len(cand), 4))] // mostly the trailing fields: payloads, last required fields
+				if r.Intn(3) == 0 {
+					it = cand[r.Intn(len(cand))]
+				}
+				b = fixLengths(b, all, it, nil)
+			}
 		}
 		c.input = append(c.input, b...)
-		if ok && dmg > 5 {
+		if ok && dmg > 6 {
 			c.requests = append(c.requests, b)
 			c.nValid++
 		} else {
@@ -785,6 +801,79 @@ func sessionIdleTimestamps() []map[string]interface{} {
 	return out
 }
 
+// sessionCrossWait (C07 "never leaves a connection open with a request unanswered"; C10 isolation): sessions are independent -
+// a handler on connection A that finishes only after a request on connection B has been handled (B's request arrives while A's
+// handler is running) must not keep B from being served: both requests are answered.
+func sessionCrossWait(rep *Report, viol func(string, map[string]interface{})) {
+	s := &kmip.Server{Log: log.New(io.Discard, "", 0)}
+	entered := make(chan struct{})
+	bDone := make(chan struct{})
+	var once sync.Once
+	var timedOut int32
+	s.SessionAuthHandler = func(conn net.Conn) (interface{}, error) { return conn.(*memConn).name, nil }
+	s.Handle(kmip.OPERATION_DISCOVER_VERSIONS, func(ctx *kmip.RequestContext, item *kmip.RequestBatchItem) (interface{}, error) {
+		if fmt.Sprint(ctx.SessionAuth) == "cross-a" {
+			close(entered)
+			select {
+			case <-bDone:
+			case <-time.After(4 * time.Second):
+				atomic.StoreInt32(&timedOut, 1)
+			}
+		} else {
+			once.Do(func() { close(bDone) })
+		}
+		return kmip.DiscoverVersionsResponse{}, nil
+	})
+	lis := newMemListener()
+	served := make(chan error, 1)
+	init := make(chan struct{})
+	go func() { served <- s.Serve(lis, init) }()
+	<-init
+	a, b := newMemConn("cross-a"), newMemConn("cross-b")
+	lis.ch <- acceptResult{conn: a}
+	lis.ch <- acceptResult{conn: b}
+	req := dvRequest()
+	a.peerSend(req)
+	select {
+	case <-entered:
+	case <-time.After(3 * time.Second):
+	}
+	b.peerSend(req)
+	answered := func(mc *memConn) bool {
+		return mc.waitUntil(6*time.Second, func() bool { return len(splitMessages(mc.out)) >= 1 || mc.localClosed }) && !mc.localClosed
+	}
+	okB := answered(b)
+	select {
+	case <-bDone:
+	default:
+		okB = false
+	}
+	okA := answered(a)
+	rep.Evaluations++
+	rep.Distribution["cross-wait"]++
+	if !okA || !okB || atomic.LoadInt32(&timedOut) == 1 {
+		viol("unanswered-open", map[string]interface{}{"what": "two connections, the handler of the first finishes only after a request on the second has been handled: the second connection's request was not served while the first handler was running (it stayed unanswered on an open connection: sessions are not independent)",
+			"first_answered": okA, "second_answered": okB, "second_request_served_only_after_first_handler_gave_up": atomic.LoadInt32(&timedOut) == 1})
+	}
+	a.peerClose()
+	b.peerClose()
+	done := make(chan struct{})
+	go func() {
+		ctx, cancel := contextWithTimeout(3 * time.Second)
+		s.Shutdown(ctx)
+		cancel()
+		close(done)
+	}()
+	select {
+	case <-done:
+	case <-time.After(5 * time.Second):
+	}
+	select {
+	case <-served:
+	case <-time.After(3 * time.Second):
+	}
+}
+
 func suiteSession(args []string) {
 	fs := flag.NewFlagSet("session", flag.ExitOnError)
 	seed := fs.Int64("seed", 1, "")
@@ -878,6 +967,7 @@ func suiteSession(args []string) {
 	rep.Evaluations += 4
 	rep.Distribution["idle-timestamp"] += 4
 	sessionBurst(rep, viol)
+	sessionCrossWait(rep, viol)
 	// truncation sweep (C10): one valid request ending in a Message Extension with a Vendor Extension item (the skipped
 	// position), preceded by a complete valid request; every proper prefix of the second one followed by close
 	{
